@@ -497,15 +497,24 @@ def _ann(f, uid=""):
 def program_source(prog, uid="") -> str:
     fields = prog["fields"]
     imp = "import utype\nfrom utype import Schema, Options\nfrom typing import List, Optional, Dict, Union\n"
-    if prog["kind"] == "cls":
+    if prog["kind"] in ("cls", "dc"):
         body = "".join(f"    f{i}: {_ann(f, uid)} = None\n" for i, f in enumerate(fields))
         if prog.get("inherit"):
             # the pending references live in the base class's parser: the subclass resolves them through it
             decl = "class Base(Schema):\n" + body + "class A(Base):\n    extra: int = 0\n"
+        elif prog.get("twin"):
+            # a second class with the same annotations: typing memoises List['B'], so the two parsers share the
+            # ForwardRef objects nested in generics
+            decl = "class A(Schema):\n" + body + "class A2(Schema):\n" + body
+        elif prog["kind"] == "dc":
+            decl = "@utype.dataclass\nclass A:\n" + body           # base class `object`: no base parser is asked
         else:
             decl = "class A(Schema):\n" + body
         if prog.get("local"):
-            decl = "def _make():\n" + "".join("    " + l + "\n" for l in decl.splitlines()) + "    return A\nA = _make()\n"
+            if prog.get("twin"):
+                decl = "def _make():\n" + "".join("    " + l + "\n" for l in decl.splitlines()) + "    return A, A2\nA, A2 = _make()\n"
+            else:
+                decl = "def _make():\n" + "".join("    " + l + "\n" for l in decl.splitlines()) + "    return A\nA = _make()\n"
     else:
         params = ", ".join(f"f{i}: {_ann(f, uid)} = None" for i, f in enumerate(fields))
         ret = "{" + ", ".join(f"'f{i}': f{i}" for i in range(len(fields))) + "}"
@@ -558,12 +567,16 @@ def canon(v):
         return [canon(x) for x in v]
     if isinstance(v, (int, str, float, bool)) or v is None:
         return v
+    if hasattr(type(v), "__parser__") and hasattr(v, "__dict__"):      # @utype.dataclass instance
+        return {str(k): canon(x) for k, x in vars(v).items() if not str(k).startswith("_")}
     return repr(type(v).__name__)
 
 
 def do_call(m, prog, call):
     try:
         kw = call_input(prog, call)
+        if call.get("on") and prog.get("twin"):
+            return {"ok": canon(m.A2(**kw))}
         if call.get("pos") and prog["kind"] == "fn":
             # positional call: the first keywords of the call go by position (needs the parser's lazily built index)
             npos = min(call["pos"], len(call["use"])) if not isinstance(call["pos"], bool) else len(call["use"])
@@ -584,7 +597,10 @@ def do_call(m, prog, call):
 
 def post_calls(prog):
     n = len(prog["fields"])
-    return [{"use": list(range(n))}] + [{"use": [i], "bad": i} for i in range(n)]
+    calls = [{"use": list(range(n))}] + [{"use": [i], "bad": i} for i in range(n)]
+    if prog.get("twin"):
+        calls += [dict(c, on=1) for c in calls]
+    return calls
 
 
 def run_sequential(prog, threads):
@@ -877,7 +893,7 @@ def modelled(case) -> bool:
         return case["prog"]["kind"] == "fn"         # replayed on the lazy-attribute model (Utv.C20.Lazy)
     if sorted(case.get("points") or []) != sorted(FWD_POINTS):
         return False
-    return all(f["ann"] in MODELLED_ANN for f in case["prog"]["fields"]) and not case["prog"].get("ret") and not case["prog"].get("chain") and not case["prog"].get("inherit")
+    return all(f["ann"] in MODELLED_ANN for f in case["prog"]["fields"]) and not case["prog"].get("ret") and not case["prog"].get("chain") and not case["prog"].get("inherit") and not case["prog"].get("twin")
 
 
 def world_of(prog):
@@ -885,7 +901,7 @@ def world_of(prog):
     return {"nf": len(fs), "isRef": [f["ann"] in ("ref", "slist") for f in fs],
             "defd": [f["ann"] == "plain" or f["to"] != "U" for f in fs],
             "rawOk": [f["ann"] != "slist" for f in fs],
-            "isLocal": bool(prog.get("local")), "isFn": prog["kind"] == "fn"}
+            "isLocal": bool(prog.get("local")), "isFn": prog["kind"] == "fn", "objectBase": prog["kind"] == "dc"}
 
 
 def enum_of(o, ref):
@@ -942,7 +958,7 @@ def random_schedule(rng, L, nthreads, k):
 
 
 def gen_prog(rng, small=False):
-    kind = rng.choice(["cls", "cls", "fn"])
+    kind = rng.choice(["cls", "cls", "cls", "fn", "fn", "dc"])
     local = rng.random() < 0.5
     nf = 1 if small else rng.choice([1, 1, 2, 2, 3])
     fields = []
@@ -964,6 +980,8 @@ def gen_prog(rng, small=False):
         prog["chain"] = True
     if kind == "cls" and rng.random() < 0.2:
         prog["inherit"] = True
+    elif kind == "cls" and rng.random() < 0.2:
+        prog["twin"] = True
     if kind == "fn" and not local and rng.random() < 0.3:
         prog["ret"] = True      # (a function-local function with a forward-referenced result fails sequentially: C17)
     return prog
@@ -978,6 +996,8 @@ def gen_threads(rng, prog, n):
             use = sorted(rng.sample(range(nf), rng.randint(1, nf)))
             bad = rng.choice(use) if rng.random() < 0.25 else None
             c = {"use": use, "bad": bad} if bad is not None else {"use": use}
+            if prog.get("twin") and rng.random() < 0.5:
+                c["on"] = 1
             if prog["kind"] == "fn" and rng.random() < 0.5:
                 c["use"] = list(range(rng.randint(1, nf)))          # positional arguments are a prefix
                 if c.get("bad") is not None and c["bad"] not in c["use"]:
@@ -1039,6 +1059,8 @@ BASE_PROGS = [
     {"kind": "cls", "local": False, "fields": [{"ann": "opt", "to": "B"}, {"ann": "plain", "to": ""}]},
     {"kind": "fn", "local": False, "fields": [{"ann": "dict", "to": "B"}]},
     {"kind": "cls", "local": True, "inherit": True, "fields": [{"ann": "ref", "to": "B"}]},
+    {"kind": "dc", "local": False, "fields": [{"ann": "ref", "to": "B"}, {"ann": "plain", "to": ""}]},
+    {"kind": "cls", "local": True, "twin": True, "fields": [{"ann": "list", "to": "B"}]},
 ]
 
 
@@ -1080,12 +1102,12 @@ class C20(Check):
     def cases(self, tier, rng, n):
         out = []
         # (a) exhaustive <= 2 preemptions, 2 threads, on the base declarations (each thread: one full call)
-        nbase = {"quick": 5, "thorough": len(BASE_PROGS), "search": 7}[tier]
+        nbase = {"quick": 4, "thorough": len(BASE_PROGS), "search": 7}[tier]
         items = []
         for p in BASE_PROGS[:nbase]:
             items.append({"op": "fwd", "prog": p, "threads": [[full_use(p)], [full_use(p)]], "points": FWD_POINTS, "mode": "vis"})
         # (b) random declarations / calls, 2-3 threads
-        nrand = {"quick": 30, "thorough": 150, "search": 40}[tier]
+        nrand = {"quick": 26, "thorough": 150, "search": 40}[tier]
         for _ in range(nrand):
             p = gen_prog(rng)
             nt = 2 if (tier == "quick" or rng.random() < 0.5) else 3
@@ -1109,13 +1131,14 @@ class C20(Check):
             p = gen_prog(rng)
             p["kind"] = "fn"
             p.pop("inherit", None)
+            p.pop("twin", None)
             if len(p["fields"]) < 2:
                 p["fields"].append({"ann": "plain", "to": ""})
             nt = 2 if (tier == "quick" or rng.random() < 0.5) else 3
             items.append({"op": "fwd", "prog": p, "threads": gen_threads(rng, p, nt), "points": LAZY_POINTS, "mode": "vis"})
         end_lazy = len(items)
         # (c) lookups in a shared registry (a registration now and then: known finding)
-        nreg = {"quick": 25, "thorough": 120, "search": 30}[tier]
+        nreg = {"quick": 20, "thorough": 120, "search": 30}[tier]
         first_reg = len(items)
         for i in range(nreg):
             nt = 2 if (tier == "quick" or rng.random() < 0.6) else 3
@@ -1133,11 +1156,11 @@ class C20(Check):
             nt = len(it["threads"])
             if first_lazy <= idx < first_lazy + nlazy:
                 scheds = schedules_2(L, 2)
-                if tier == "quick" and len(scheds) > 600:
+                if tier == "quick" and len(scheds) > 450:
                     one = [x for x in scheds if len(x) <= 2]
                     two = [x for x in scheds if len(x) > 2]
                     rng.shuffle(two)
-                    scheds = one + two[:600 - len(one)]
+                    scheds = one + two[:450 - len(one)]
             elif first3 is not None and first3 <= idx < first3 + 2:
                 scheds = schedules_n(L, 3, 2)
             elif idx >= first_apf:
@@ -1151,7 +1174,7 @@ class C20(Check):
                     scheds = [random_schedule(rng, L, nt, rng.randint(1, 3)) for _ in range(80)]
             elif idx < nbase:
                 scheds = schedules_2(L, 2)
-                if tier == "quick" and idx >= 4:
+                if tier == "quick" and idx >= 3:
                     one = [s for s in scheds if len(s) <= 2]
                     two = [s for s in scheds if len(s) > 2]
                     rng.shuffle(two)
@@ -1252,6 +1275,15 @@ class C20(Check):
             return f"outcomes differ: impl={want} model={mo['outs']}"
         if any(p != "<fin>" for p in mo["pcs"]):
             return f"model threads not finished after the trace: {mo['pcs']}"
+        # value level: a call that returned its alone-value converted every keyword by its type; one that raised has none
+        wantv = [[([[i, "byType"] for i in c["use"]] if (o == a and "ok" in o) else []) for c, o, a in zip(calls, outs or [], al)]
+                 for calls, outs, al in zip(case["threads"], io["outs"], io["alone"])]
+        if mo.get("vouts") != wantv:
+            return f"values differ: impl (relative to the call alone)={wantv} model={mo.get('vouts')}"
+        alonev = [[([[i, "byType"] for i in c["use"]] if "ok" in a else []) for c, a in zip(calls, al)]
+                  for calls, al in zip(case["threads"], io["alone"])]
+        if mo.get("aloneVals") != alonev:
+            return f"sequential values differ: impl alone={alonev} spec={mo.get('aloneVals')}"
         alone = [[enum_of(a, None) for a in al] for al in io["alone"]]
         if mo["alone"] != alone:
             return f"sequential reference differs: impl alone={alone} spec={mo['alone']}"
@@ -1322,7 +1354,7 @@ class C20(Check):
             hr = any("reg" in op for ops in case["threads"] for op in ops)
             return f"registry/cache={case['cache']}/threads={len(case['threads'])}/{'with-register' if hr else 'lookups-only'}"
         p = case["prog"]
-        anns = "+".join(f["ann"] + ("!" if f["to"] == "U" else "") for f in p["fields"]) + ("->ref" if p.get("ret") else "") + ("+chain" if p.get("chain") else "") + ("+inherit" if p.get("inherit") else "")
+        anns = "+".join(f["ann"] + ("!" if f["to"] == "U" else "") for f in p["fields"]) + ("->ref" if p.get("ret") else "") + ("+chain" if p.get("chain") else "") + ("+inherit" if p.get("inherit") else "") + ("+twin" if p.get("twin") else "")
         pre = "?"
         if isinstance(io, dict) and "trace" in io:
             tr = io["trace"]
@@ -1437,7 +1469,7 @@ class C20(Check):
         ev["coverage"]["exhaustive"] = False
         ev["coverage"]["exhaustive_part"] = (
             "every schedule with <= 2 preemptions at shared-state lines, 2 threads x 1 full call, for the first "
-            + ("4 base declarations; <= 150 of them for each 2-thread registry program (quick)" if tier == "quick" else
+            + ("3 base declarations; <= 150 of them for each 2-thread registry program (quick)" if tier == "quick" else
                f"{len(BASE_PROGS)} base declarations, <= 3 preemptions for one of them, and with 3 threads (<= 2 preemptions) for 2 of them; <= 150 for each 2-thread registry program (thorough)"))
 
 
